@@ -12,7 +12,7 @@ open Lean Snow W
 section
 variable (α : Type) [Num α] [Wire α]
 
-/-- tree wire format: `{"n": num}` | `{"s": "str"}` | `{"z": 0}` | `{"d": [[key, tree], …]}` -/
+/-- tree wire format: `{"n": num}` | `{"n": num, "s": text}` | `{"s": "str"}` | `{"z": 0}` | `{"d": [[key, tree], …]}` -/
 partial def decCfg (j : Json) : Except String (Cfg α) := do
   match optFld j "d" with
   | some v =>
@@ -27,7 +27,10 @@ partial def decCfg (j : Json) : Except String (Cfg α) := do
     return .node es
   | none =>
     match optFld j "n" with
-    | some v => return .leaf (.num (← Wire.dec v))
+    | some v =>
+      match optFld j "s" with
+      | some t => return .leaf (.nstr (← Wire.dec v) (← t.getStr?))
+      | none => return .leaf (.num (← Wire.dec v))
     | none =>
       match optFld j "s" with
       | some v => return .leaf (.str (← v.getStr?))
@@ -37,6 +40,7 @@ variable {α}
 
 def encVal : Val α → Json
   | .num x => Json.mkObj [("n", Wire.enc x)]
+  | .nstr x s => Json.mkObj [("n", Wire.enc x), ("s", Json.str s)]
   | .str s => Json.mkObj [("s", Json.str s)]
   | .null => Json.mkObj [("z", Json.num 0)]
 
